@@ -134,6 +134,51 @@ def check(tier, seed):
                                   {'property': 'C09', 'input': desc, 'expected': exp, 'implementation_says': impl},
                                   'c09-nrestart|' + (impl if impl.startswith('!') else C.hexs(s)[:200] + f'|{off}'))
                 cases.append(Case('nmea-restart', G.nmea_cmd(ops), impl, desc, kind='nmea/restart'))
+        # the backends' receive paths are part of the chunking: whatever block boundaries the transport produces, _receive() hands
+        # every byte on unchanged (gpsd: recv(128) blocks at every alignment; serial: one byte per read)
+        from .. import backends as BK
+        from .. import reqgen as Q
+        n_rx = 0
+        for _ in range(6 if tier == 'quick' else 150):
+            segs, s0, _k = G.rand_segments(rng, 5)
+            s = rng.choice([b'', b'\r\n', b'{"class":"TPV"}\r\n']) + s0 + G.frame(0x0A, 0x04, b'\r\n\n\rtext\r\n') + G.frame(0x0D, 0x0A, b'\x0a\x0d')
+            filt = G.CIDS + [(0x0A, 0x04), (0x0D, 0x0A)]
+            want = G.impl_ubx(filt, [('P', s)])
+            for shift in sorted(set([0, 1, 2, 3, 127] + [rng.randrange(128) for _ in range(4)])):
+                def through_gpsd(shift=shift):
+                    clock, trace = Q.VClock(), []
+                    srv = Q.make_server_gpsd({'pending': [], 'attempts': [], 'idle': 7}, 0, 100, clock, trace)
+                    st = BK.ScriptSocket.st
+                    st['pending'] = [(s[:shift], 0)] * bool(shift) + [(s[k:k + 128], 0) for k in range(shift, len(s), 128)]
+                    got = bytearray()
+                    while st['pending']:
+                        d = srv._receive()
+                        if d:
+                            got += d
+                    srv.cleanup()
+                    return bytes(got)
+                got = C.guarded(through_gpsd)
+                n_rx += 1
+                if got != s:
+                    res.violation('the gpsd backend\'s _receive() does not hand on exactly the bytes received',
+                                  {'property': 'C09', 'input': {'stream_hex': C.hexs(s), 'first_block': shift, 'block': 128}, 'received_hex': C.hexs(got) if isinstance(got, bytes) else got},
+                                  'c09-gpsd-receive')
+                    break
+            def through_tty():
+                clock, trace = Q.VClock(), []
+                srv = Q.make_server_tty({'pending': [(s[k:k + 1], 0) for k in range(len(s))], 'attempts': [], 'idle': 7}, 0, 100, clock, trace)
+                got = bytearray()
+                while srv.serial_port.pending:
+                    got += srv._receive() or b''
+                srv.cleanup()
+                return bytes(got)
+            got = C.guarded(through_tty)
+            n_rx += 1
+            if got != s:
+                res.violation('the serial backend\'s _receive() does not hand on exactly the bytes received',
+                              {'property': 'C09', 'input': {'stream_hex': C.hexs(s)}, 'received_hex': C.hexs(got) if isinstance(got, bytes) else got}, 'c09-tty-receive')
+            cases.append(Case('ubx-chunking', G.ubx_cmd(filt, [('P', s)]), want, {'stream_hex': C.hexs(s), 'filter': filt, 'chunking': 'whole (stream of the receive-path runs)'}, kind='ubx/receive-path'))
+        res.notes['receive_path_runs'] = n_rx
         res.compare(cases)
         res.oblige('correspondence parsers under chunking/restart (Tie A)', not res.disagreements)
         res.oblige('implementation-only chunking/restart differential', not res.violations)
